@@ -105,7 +105,8 @@ def run_tlc(module, cfg, files=None, workers=4, timeout=600, extra=None, heap="3
         for k, v in (files or {}).items():
             with open(os.path.join(d, k), "w") as fh:
                 fh.write(v)
-        cmd = ["java", "-XX:+UseParallelGC", "-XX:ParallelGCThreads=2", "-Xmx" + heap, "-Xss64m"]
+        cmd = ["java", "-XX:+UseParallelGC", "-XX:ParallelGCThreads=2", "-Xmx" + heap, "-Xss64m",
+               "-Djava.io.tmpdir=" + d]       # SANY unpacks the standard modules into the temp dir on every run: keep that inside the scratch copy
         if depth_first:
             cmd.append("-Dtlc2.tool.queue.IStateQueue=StateDeque")
         cmd += ["-cp", TLA_CP, "tlc2.TLC", "-workers", str(workers), "-metadir", os.path.join(d, "md"),
